@@ -479,7 +479,9 @@ func (p *sshFxpStatResponse) MarshalBinary() ([]byte, error) {
 var emptyFileStat = []any{uint32(0)}
 
 func (p *sshFxpOpenPacket) readonly() bool {
-	return !p.hasPflags(sshFxfWrite)
+	// Creating or truncating a file modifies the file system even when the
+	// handle itself is only opened for reading.
+	return p.Pflags&(sshFxfWrite|sshFxfAppend|sshFxfCreat|sshFxfTrunc) == 0
 }
 
 func (p *sshFxpOpenPacket) hasPflags(flags ...uint32) bool {
